@@ -55,15 +55,23 @@ def _mixed_payload(gid, other):
 
 
 def _via_file(text, fn):
+    """every file-based import of a process goes through ONE path (a caller's working file): a loader that remembers
+    something about a path it has seen meets another document there"""
     import os
     import tempfile
-    fd, path = tempfile.mkstemp(suffix='.graphml', prefix='c04_')
+    d = os.path.join(tempfile.gettempdir(), f'c04_{os.getpid()}')
+    os.makedirs(d, exist_ok=True)
+    path = os.path.join(d, 'model.graphml')
     try:
-        with os.fdopen(fd, 'w', encoding='utf-8') as f:
+        with open(path, 'w', encoding='utf-8') as f:
             f.write(text)
         return fn(path)
     finally:
         os.unlink(path)
+        try:
+            os.rmdir(d)
+        except OSError:
+            pass
 
 
 def _bad_payload(gid):
